@@ -304,7 +304,8 @@ func (r CompareFunc[T]) ThenComparing(other Ord[T]) Ord[T] {
 
 func (r CompareFunc[T]) Reversed() Ord[T] {
 	return CompareFunc[T](func(a, b T) int {
-		return -r.Compare(a, b)
+		// not -r.Compare(a, b): the negation of math.MinInt is math.MinInt
+		return r.Compare(b, a)
 	})
 }
 
